@@ -69,7 +69,7 @@ def run(c):
     ok, log = vlib.coq_make(["theories/Edf/Cases.vo", "theories/Edf/NegCases.vo"])
     if not ok:
         c.broken.append({"kind": "proof", "what": "Coq build of theories/Edf/Cases.v / NegCases.v failed", "detail": log[-2500:]})
-    n = 1500 if c.tier == "quick" else 20000
+    n = 1300 if c.tier == "quick" else 20000   # + ~240 deterministic encodeType-flag cases of corpus/C11/flag-*.json
     nn = 250 if c.tier == "quick" else 6000
     if c.replay:
         if _is_neg_replay(c.replay):
@@ -98,4 +98,9 @@ def run(c):
         "negotiated family: the two nodes live in one process (one edf type registry; error and atom tables are per node), each "
         "MessageIntroduce crosses the handshake's real framing over net.Pipe, caches come from handshake.VerifCaches (build tag verif)",
         "time.Time.MarshalBinary / UnmarshalBinary of the Go standard library round-trip (only the length/version check is modelled)",
+        "encodeType flag protocol (Edf/Flag.v): the stateEncode chain state, state.child, ... is modelled as the list of its encodeType "
+        "flags; options are constant along the chain; a pooled and a freshly allocated child are the same (flag false, no child); the "
+        "round-trip theorem is stated for the functional encoder enc_val, which C11_flag_refines proves equal to the stateful one when all "
+        "nine resets are in place; that /repo has the nine resets is tied by the byte-exact correspondence on the flag-* corpus cases and "
+        "the flag-random family (interface-typed next to concrete-typed siblings in every registered and unnamed container kind)",
     ]
